@@ -848,6 +848,19 @@ class OriginSuite(PairedSuite):
             c = rng.choice([1000, 10 ** 6, 1800000000])
             yield {"a": a, "b": shift_scenario(a, Fraction(c)), "pick": "a", "oracle": {"c": c, "n": n, "speed": [fstr(tc), val]}}
 
+        for i in range(2 if tier == "quick" else 8):
+            # a LONG touch with a live regression (keep-going mode, so no polling step is involved): minutes into the
+            # touch the blow times are in the thousands, and at a present-day origin the real times are ~1.8e9.  The
+            # strikes must still be those of the same session at origin 0 (judged by the oracle only: hundreds of rows
+            # of exact rational regression are out of the kernel's reach).
+            nrows = 300 if tier == "quick" else rng.choice([300, 450, 600])
+            a, orc = line_session(rng, kind="regression", inertia=rng.choice([0.0, 0.5]), initial_inertia=0,
+                                  ratio=rng.choice([1, Fraction(102, 100), Fraction(97, 100)]),
+                                  human_leads=rng.choice([True, False]), n=rng.choice([4, 6]), nrows=nrows, jitter_us=100)
+            c = 1800000000
+            yield {"a": a, "b": shift_scenario(a, Fraction(c)), "pick": "a", "oracle_only": True,
+                   "oracle": dict(orc, c=c, long=True)}
+
     def cases(self, rng, tier):
         yield from self.scenarios(rng, tier)
 
@@ -856,6 +869,8 @@ class OriginSuite(PairedSuite):
             return None
         c = case["oracle"]["c"]
         tol = TOL if c <= 10 ** 6 else Fraction(5, 1000)
+        if case["oracle"].get("long"):
+            tol = Fraction(2, 1000)             # (no polling in keep-going mode: 2 ms is 8000 ulps of a double at 1.8e9)
         wa, wb = wheatley_strikes(out["a"]), wheatley_strikes(out["b"])
         if [x[:3] for x in wa] != [x[:3] for x in wb][:len(wa)] and c <= 10 ** 6:
             return f"with the clock's origin moved by {c}s Wheatley struck different bells"
